@@ -2,6 +2,7 @@ package main
 
 import (
 	"bytes"
+	"os"
 	"context"
 	"fmt"
 	"os/exec"
@@ -70,14 +71,19 @@ func dischargeHedged(o *Obligation, timeoutS int) {
 		v, out, name string
 		t          float64
 	}
-	ch := make(chan res, len(solvers)+2)
+	ch := make(chan res, len(solvers)+5)
 	withModel := o.smt(true)
 	noModel := o.smt(false)
 	plainModel := o.smtV(true, false)
 	plain := o.smtV(false, false)
 	hasAlt := plain != noModel
-	// startV: run solver s on the skolemised (sk) or plain form of the query
-	startV := func(s solverSpec, sk bool, st chan struct{}) {
+	// pruned forms (heap frame axioms outside the goal's cone dropped, see prune.go): only
+	// their `unsat` counts
+	prunedSk := o.smtP(false, !noSkolem, true)
+	prunedPlain := o.smtP(false, false, true)
+	hasPruned := !noPrune && prunedSk != noModel
+	// startV: run solver s on the skolemised (sk) or plain form of the query, full or pruned
+	startV := func(s solverSpec, sk, pruned bool, st chan struct{}) {
 		go func() {
 			in := noModel
 			if !sk {
@@ -93,29 +99,47 @@ func dischargeHedged(o *Obligation, timeoutS int) {
 			if !sk && hasAlt {
 				name += "/plain"
 			}
+			if pruned {
+				in = prunedSk
+				if !sk {
+					in = prunedPlain
+				}
+				name += "/pruned"
+			}
 			v, out, t := runSolverCtx(ctx, s, in, timeoutS, st)
+			if pruned && v != "unsat" && v != "error" {
+				v = "unknown" // a model of fewer assumptions is no counterexample
+			}
 			ch <- res{v, out, name, t}
 		}()
 	}
-	start := func(s solverSpec, st chan struct{}) { startV(s, true, st) }
 	startHedge := func() int {
 		n := 0
 		for i, s := range hedgeSolvers() {
 			// alternate forms across the hedge; the primary configuration also gets a run
 			// on the plain form when the two differ
-			startV(s, !(hasAlt && i%2 == 0), nil)
+			startV(s, !(hasAlt && i%2 == 0), false, nil)
 			n++
 		}
 		if hasAlt {
-			startV(solvers[0], false, nil)
+			startV(solvers[0], false, false, nil)
 			n++
+		}
+		if hasPruned {
+			// the primary ran on the pruned query: now the full one, and a second pruned form
+			startV(solvers[0], true, false, nil)
+			n++
+			if hasAlt {
+				startV(solvers[1], false, true, nil)
+				n++
+			}
 		}
 		return n
 	}
 	// the hedge delay counts from the moment the primary solver actually runs (it may
 	// first wait for a machine-wide slot)
 	started := make(chan struct{})
-	start(solvers[0], started)
+	startV(solvers[0], true, hasPruned, started)
 	running := 1
 	hedged := false
 	timer := time.NewTimer(24 * time.Hour)
@@ -167,6 +191,9 @@ func dischargeHedged(o *Obligation, timeoutS int) {
 		}
 	}
 }
+
+// noPrune switches relevance pruning off (GOVC_NOPRUNE=1, for comparison runs).
+var noPrune = os.Getenv("GOVC_NOPRUNE") == "1"
 
 // hedgeLight restricts the hedge to two extra solvers (development runs on a shared machine).
 var hedgeLight = false
